@@ -41,7 +41,7 @@ LEVEL_NOTE = ("Trusts the wrapped elements' own methods (twins are driven throug
               "buffer-size clause (the property's own observation point).")
 TECHNIQUE = "history recorder + block-model twin oracle + exactly-once accounting + LINE step budget"
 
-RUN_KINDS = ["run_collect", "run_cum", "run_map", "run_first"]
+RUN_KINDS = ["run_collect", "run_cum", "run_map", "run_first", "run_named"]
 FC_KINDS = ["fc_store", "fc_sum", "fc_count"]
 FR_KINDS = ["fr_store", "fr_inner", "fr_custom"]
 
@@ -65,6 +65,36 @@ class RunCum(object):
 
     def reset(self):
         self.seen = []
+
+
+class RunNamedReset(object):
+    """Run element with state whose reset method has another name (given through reset_name);
+    it also has an unrelated method that happens to be called reset."""
+
+    def __init__(self):
+        self.total = 0
+
+    def run(self, flow):
+        for v in flow:
+            self.total += v if isinstance(v, (int, float)) and not isinstance(v, bool) else 0
+            yield ("named", v, self.total)
+
+    def clear(self):
+        self.total = 0
+
+    def reset(self):
+        # not the reset of the accumulation: e.g. reloads a calibration
+        self.total = 10 ** 6
+
+
+class OnlyIter(object):
+    """A re-iterable flow container that is not a sequence (only __iter__)."""
+
+    def __init__(self, xs):
+        self._xs = list(xs)
+
+    def __iter__(self):
+        return iter(self._xs)
 
 
 class RunMap(object):
@@ -167,6 +197,8 @@ def make_el(kind):
         return RunCum()
     if kind == "run_map":
         return RunMap()
+    if kind == "run_named":
+        return RunNamedReset()
     if kind == "run_first":
         return RunFirst()
     if kind == "fc_store":
@@ -215,6 +247,8 @@ def model_run(kind, n, reset, yor, xs):
         if reset:
             if kind == "fr_custom":
                 el.my_reset()
+            elif kind == "run_named":
+                el.clear()
             else:
                 el.reset()
     return out
@@ -233,6 +267,8 @@ def make_fr(kind, n, mode, reset, yor):
         kw["reset"] = reset
     if kind == "fr_custom":
         kw.update(fill="my_fill", request="my_request", reset_name="my_reset")
+    if kind == "run_named":
+        kw.update(reset_name="clear")
     return lena.core.FillRequest(make_el(kind), **kw)
 
 
@@ -363,6 +399,37 @@ def run_case(r, obs):
             obs.count("oracle_evaluations")
             if N == 0:
                 obs.check(got == [], "run:empty-flow-yields", "empty flow yielded %r" % (got,))
+            if N in (0, 1, n, 2 * n + 1, r["nmax"]):
+                # driven as an element of a Sequence / Source whose flow is a re-iterable
+                # container that is not a sequence (a dict, a dict view, an object with __iter__)
+                import itertools
+                for cname, mkc in (("dict", lambda: dict.fromkeys(xs)),
+                                   ("dict-values", lambda: dict(enumerate(xs)).values()),
+                                   ("only-__iter__", lambda: OnlyIter(xs))):
+                    for how in ("sequence", "source"):
+                        frc = make_fr(kind, n, mode, reset, yor)
+                        try:
+                            with _guard(obs, 800 * (N + 2) + 4000):
+                                if how == "sequence":
+                                    stream = lena.core.Sequence(frc).run(mkc())
+                                else:
+                                    stream = lena.core.Source(mkc(), frc)()
+                                gotc = list(itertools.islice(stream, len(exp) + 4))
+                        except StepBudgetExceeded as e:
+                            obs.fail("run:%s:buffer_%s:nontermination" % (kind.split("_")[0], mode),
+                                     "in a %s over a %s: %s" % (how, cname, e))
+                            continue
+                        except Exception as e:  # pylint: disable=broad-except
+                            gotc = "raised %r" % (e,)
+                        obs.count("run_executions")
+                        obs.check(gotc == exp,
+                                  "run:%s:buffer_%s%s:in-a-%s-over-a-non-sequence-container"
+                                  % (kind.split("_")[0], mode, ":yor" if yor else "", how),
+                                  "FillRequest(%s, bufsize=%d, buffer_%sput, reset=%s, "
+                                  "yield_on_remainder=%s) in a %s run over a %s of %r gives %r "
+                                  "(first %d results), block model gives %r"
+                                  % (kind, n, mode, reset, yor, how, cname, xs, gotc,
+                                     len(exp) + 4, exp))
             if N in (n, 2 * n + 1, r["nmax"]) and N:
                 # (a) two run() generators of one object alive at once (the element twice in a
                 # sequence, two flows zipped): each processes its own flow in its own blocks
@@ -576,6 +643,36 @@ def run_case(r, obs):
                              "Split([FillRequest(%s, bufsize=%d, buffer_%sput, reset=%s)], "
                              "bufsize=%r).run(%r) = %r, block model gives %r"
                              % (kind, n, mode, reset, b, xs, got, exp))
+                # the same branch after branches that stop reading (LenaStopFill) in the middle
+                # of the flow: the FillRequest branch still gets every value
+                if N and b is not None and b <= N:
+                    import lena.flow
+                    import lena.math
+                    for stop_at in sorted(set([0, 1, N // 2])):
+                        tagged = lambda v: ("STOPPED-BRANCH", v)
+                        first = [(lena.flow.Slice(stop_at), lena.math.Sum(), tagged),
+                                 (lena.flow.Slice(stop_at),
+                                  lena.core.FillRequest(Store(), bufsize=2, reset=True,
+                                                        buffer_input=True), tagged)]
+                        sp2 = lena.core.Split(first + [make_fr(kind, n, mode, reset, False)],
+                                              bufsize=b)
+                        obs.count("split_executions")
+                        try:
+                            with _guard(obs, 1200 * (N + 2) + 6000):
+                                got2 = [v for v in sp2.run(iter(xs))
+                                        if not (isinstance(v, tuple) and len(v) == 2
+                                                and v[0] == "STOPPED-BRANCH")]
+                        except StepBudgetExceeded as e:
+                            obs.fail("split:buffer_%s:nontermination:after-stopping-branches"
+                                     % mode, "%s" % e)
+                            continue
+                        obs.check(got2 == exp,
+                                  "split:buffer_%s:%s:after-branches-that-stopped"
+                                  % (mode, classify_diff(got2, exp, xs, n)),
+                                  "Split([(Slice(%d), Sum()), (Slice(%d), FillRequest(Store)), "
+                                  "FillRequest(%s, bufsize=%d, buffer_%sput, reset=%s)], bufsize=%r)"
+                                  ".run(%r): the last branch gives %r, block model gives %r"
+                                  % (stop_at, stop_at, kind, n, mode, reset, b, xs, got2, exp))
     elif k == "frseq":
         n, reset, pre, post = r["n"], r["reset"], r["pre"], r["post"]
 
@@ -711,3 +808,7 @@ def _buffers(fr, n, mode, hist, obs):
 
 
 RULE += (' Added: None / false values at every flow position, an element with custom method names (the standard names spoil the results), elements that signal LenaStopFill on a given value under Split.')
+RULE += (' Added: a run element whose reset method is given through reset_name (and which has an '
+         'unrelated method called reset); FillRequest as an element of a Sequence / Source run over '
+         'a dict, a dict view and an object that only has __iter__; a FillRequest branch of Split '
+         'after branches that signal LenaStopFill in the middle of the flow.')
